@@ -49,14 +49,16 @@ func c18Path(c *c18Case, i int) string {
 }
 
 var c18Foreign = map[string]string{
-	"README.md":    "# my pki\nversion: 1\nsubject: CN=not a config\n",
-	"cfg.txt":      "version: 1\nsubject: CN=Text File\n",
-	"broken.yaml":  "version: 1\nsubject: [unclosed\n  - {\n",
-	"nover.yml":    "subject: CN=No Version\nissuer: nobody\n",
-	"list.json":    "[1,2,3]",
-	"v2.yaml":      "version: 2\nsubject: CN=Future\n",
-	"orphan.pem":   "-----BEGIN CERTIFICATE-----\nAAAA\n-----END CERTIFICATE-----\n",
-	"sub/notes.md": "nothing\n",
+	"README.md":              "# my pki\nversion: 1\nsubject: CN=not a config\n",
+	"cfg.txt":                "version: 1\nsubject: CN=Text File\n",
+	"broken.yaml":            "version: 1\nsubject: [unclosed\n  - {\n",
+	"nover.yml":              "subject: CN=No Version\nissuer: nobody\n",
+	"list.json":              "[1,2,3]",
+	"v2.yaml":                "version: 2\nsubject: CN=Future\n",
+	"orphan.pem":             "-----BEGIN CERTIFICATE-----\nAAAA\n-----END CERTIFICATE-----\n",
+	"sub/notes.md":           "nothing\n",
+	"dir.yaml/inner.txt":     "a directory whose name ends in .yaml\n",
+	"profiles.d/unused.yaml": "version: 1\nname: unused-profile\nvalidity:\n  duration: 1y\n",
 }
 
 // c18Build constructs the configs and the model's verdict.
